@@ -72,6 +72,8 @@ CORPUS = [
     ("tstruct12_last", TStruct([F(None, L("u8")) for _ in range(11)] + [F(None, named(("x", L("u8")),))])),
     ("result_uneven", Named2("Result", [named(("a", L("u8")),), named(("history", Array(11, L("u8"))),)])),
     ("arr_huge", Array(2**63 + 1, L("unit"))),
+    ("bits_wide_vs_deep", named(("wide", Array(16, L("u8"))), ("deep", Array(1, Array(1, L("u8")))), ("n", L("u8")))),
+    ("len_long_vs_deep", named(("a_rather_long_field_name", L("u8")), ("d", named(("e", named(("f", L("u8")),)),)))),
     ("arr_wide2", Array(70000, Array(2, L("unit")))),
     ("access_deny", Struct([F("inner", Struct([F("val", L("u8"), get=True, get_mut=True, validate=True,
                                                   deny={"deserialize": "read-only", "ref_any": "opaque"}),
@@ -120,3 +122,15 @@ for _k in ["tuple", "array", "Range", "RangeInclusive", "RangeFrom", "RangeTo", 
            "tstruct", "enum", "flatenum", "option", "box", "refcell", "rc", "arc", "rcweak", "arcweak", "cow", "mutex",
            "rwlock"]:
     CORPUS.append((f"wrap_{_k}", named(("k", _wrapped(_k)), ("c", Array(1, Array(3, L("u8")))), ("z", L("u8")))))
+
+
+def _nest1(depth):
+    t = L("unit")
+    for _ in range(depth):
+        t = Array(1, t)
+    return t
+
+
+# packed keys using exactly 62, 63 (= capacity) and 64 bits with a single leaf
+for _d in (62, 63, 64):
+    CORPUS.append((f"bits{_d}", named(("x", L("u8")), ("chain", _nest1(_d - 1)))))
